@@ -79,6 +79,18 @@ def _scanned(P, g, depth=0, seen=None):
             h = P.functions.get(i.callee or "")
             if h is not None and h.blocks:
                 out |= _scanned(P, h, depth + 1, seen)
+            out |= _scanned_fn_args(P, i, depth, seen)
+    return out
+
+
+def _scanned_fn_args(P, call, depth=0, seen=None):
+    """a lookup handed over as a function pointer argument (`is_taken(id, point_exists)`) is part of the test"""
+    out = set()
+    for a in call.args:
+        if a.get("k") == "func":
+            h = P.functions.get(a.get("name") or "")
+            if h is not None and h.blocks:
+                out |= _scanned(P, h, depth + 1, set() if seen is None else seen)
     return out
 
 
@@ -315,7 +327,7 @@ def run(chk, w):
             for t, keys in tests:
                 tested |= keys
                 for k_ in keys:
-                    scanned.setdefault(k_, set()).update(_scanned(P, P.functions[t.callee]))
+                    scanned.setdefault(k_, set()).update(_scanned(P, P.functions[t.callee]) | _scanned_fn_args(P, t))
             # by-value arguments: a temp filled by memcpy from record.field
             for t in f.calls():
                 g = P.functions.get(t.callee or "")
